@@ -511,6 +511,21 @@ func c01Widths(p *Prog, r *Report) {
 						}
 					}
 				}
+				// the names kept in a constant package-level table looked up by the type's name
+				v := resolveOnPath(row.Path, row.Ret.Results[0])
+				if mi, ok := v.(*ssa.MakeInterface); ok {
+					if ex, ok := mi.X.(*ssa.Extract); ok && ex.Index == 0 {
+						if lk, ok := ex.Tuple.(*ssa.Lookup); ok && strings.HasSuffix(sk(lk.Index), ".Name()") {
+							if g := globalOfLoad(lk.X); g != nil {
+								if tab, ok := p.stringMapRows(g); ok {
+									for k, val := range tab {
+										seen[k] = val
+									}
+								}
+							}
+						}
+					}
+				}
 			}
 			for n, w := range want {
 				r.Check("R01b", "type "+n+" ↦ "+w, ct.Pos(), seen[n] == w, "maps to "+seen[n])
